@@ -74,6 +74,13 @@ func (a *AES128CBC) DecodeFromBytes(data []byte, _ gopacket.DecodeFeedback) erro
 		return fmt.Errorf("invalid number of pad bytes: %v", padBytes)
 	}
 	padStart := len(data) - int(padBytes) - 1
+	// the pad must lie within the decrypted payload: with a single block, a pad
+	// length of 16 would otherwise begin inside the IV, and slicing the payload
+	// below would panic
+	if padStart < a.cipher.BlockSize() {
+		return fmt.Errorf("invalid number of pad bytes: %v in a payload of %v bytes",
+			padBytes, len(data)-a.cipher.BlockSize())
+	}
 	// table 13-20 of the spec says we should check the pad
 	v := uint8(1)
 	for i := padStart; i < padStart+int(padBytes); i++ {
